@@ -363,6 +363,22 @@ class C06A(Machine):
             kb = sorted(_splitset(ref.restore_tree(index=i), cfg) for i in range(len(ref)))
             if ka != kb:
                 return ("restored_trees", "multiset of restore_tree(i) split sets differs from the reference")
+            # the per-tree rows: iteration yields one (splits, lengths) pair per tree, indexing returns the same pairs,
+            # and as a multiset they are the rows of the collection built tree by tree
+            def rows(x):
+                it = [(tuple(sp), tuple(ln)) for sp, ln in x]
+                ix = [(tuple(sp), tuple(ln)) for sp, ln in (x.get_split_bitmask_and_edge_tuple(i) for i in range(len(x)))]
+                return it, ix
+            it_a, ix_a = rows(ta)
+            it_b, ix_b = rows(ref)
+            if len(it_a) != len(ta):
+                return ("per_tree_rows", "iteration yields %d trees, len() is %d" % (len(it_a), len(ta)))
+            if it_a != ix_a:
+                return ("per_tree_rows", "iteration and get_split_bitmask_and_edge_tuple(i) disagree")
+            if any(len(sp) != len(ln) for sp, ln in it_a) and not cfg["ignore_edge_lengths"]:
+                return ("per_tree_rows", "a tree's split and edge-length rows differ in length")
+            if sorted(it_a, key=repr) != sorted(it_b, key=repr):
+                return ("per_tree_rows", "multiset of per-tree (splits, edge lengths) rows differs from the reference")
             return None
         if what == "summarize":
             ti = members[st["k"] % len(members)]
